@@ -47,3 +47,17 @@ Section Level.
     destruct (v opts s); cbn [andb negb]; [|reflexivity]. destruct sub; reflexivity.
   Qed.
 End Level.
+
+(* ---- transfer: read off the translated functions directly -------------------------------------------------------------- *)
+(* a request that names no child, or that the child's validator refuses, is answered unreachable (3) or failure (2) -- never
+   success -- and the dry run says no, whatever the handler would have answered *)
+Theorem source_refused_request_is_never_success : forall len hashable unknown allows handler_status is_mgr sub,
+  len = 0 \/ hashable = false \/ unknown = true \/ allows = false ->
+  (RequestManager_call len hashable unknown allows handler_status = 3 \/ RequestManager_call len hashable unknown allows handler_status = 2) /\
+  RequestManager_check_valid len hashable unknown allows is_mgr sub = false.
+Proof.
+  intros len hashable unknown allows hs is_mgr sub H. unfold RequestManager_call, RequestManager_check_valid.
+  destruct (len =? 0) eqn:L; [split; [left|]; reflexivity|].
+  destruct hashable, unknown, allows; cbn; try (split; [auto|reflexivity]).
+  exfalso. destruct H as [H|[H|[H|H]]]; try discriminate. apply Z.eqb_neq in L. contradiction.
+Qed.
